@@ -5,6 +5,7 @@ Every transition is a call into the implementation: ``protocol.handle_line`` / `
 ``set_child_value``, ``update_fw``, the persistence timer function, ``stop()`` + fresh start.
 All nondeterminism (clock, timer, threads, devices) is owned by module-namespace shims.
 """
+import collections
 import os
 import shutil
 import sys
@@ -242,17 +243,47 @@ class FakeConn:
         return (self.closed,)
 
 
-class _Tagged:
-    """A queued job tagged with the event that caused it (C07's 'cause')."""
+class _CauseDeque(collections.deque):
+    """The gateway's job queue, remembering for every queued job the event that caused it (C07's 'cause').
 
-    def __init__(self, func, tag, world):
-        self.func = func
-        self.tag = tag
+    The entries stay exactly what the library put there ((func, args) tuples): code that inspects or compares queued
+    jobs sees what it would see without the harness. The cause lives in a side table keyed by entry identity and
+    becomes the world's current cause when the entry is taken out."""
+
+    def __init__(self, world):
+        super().__init__()
         self._world = world
+        self._causes = {}
 
-    def __call__(self, *args):
-        self._world.cur_cause = self.tag
-        return self.func(*args)
+    def _put(self, item):
+        self._causes[id(item)] = (item, self._world.cur_cause)
+
+    def _took(self, item):
+        rec = self._causes.pop(id(item), None)
+        if rec is not None:
+            self._world.cur_cause = rec[1]
+        return item
+
+    def append(self, item):
+        self._put(item)
+        super().append(item)
+
+    def appendleft(self, item):
+        self._put(item)
+        super().appendleft(item)
+
+    def popleft(self):
+        return self._took(super().popleft())
+
+    def pop(self):
+        return self._took(super().pop())
+
+    def clear(self):
+        self._causes.clear()
+        super().clear()
+
+    def verif_state(self):
+        return tuple(self)
 
 
 class Obs:
@@ -392,12 +423,7 @@ class World:
             return real_send(message)
 
         transport.send = recording_send
-        real_add = gw.tasks.add_job
-
-        def tagging_add_job(func, *args):
-            return real_add(_Tagged(func, world.cur_cause, world), *args)
-
-        gw.tasks.add_job = tagging_add_job
+        gw.tasks.queue = _CauseDeque(world)
         if hasattr(gw.tasks, "_stop_event"):
             gw.tasks._stop_event = _PumpStopEvent()
         if self.persistence:
